@@ -19,8 +19,8 @@ from pyvc.values import AbsObj, Arr, Obj, Opaque, PDict, PList, SV, mk, sym, to_
 # native: sequences of public-API operations on a real DrillholeGroup, compared with a model
 # ------------------------------------------------------------------------------------------
 
-OPS = ("add", "update", "remove", "reopen", "add_nan", "add_text", "update_text", "remove_hole_ws", "remove_hole_parent", "copy_group", "group_data", "idle_session",
-       "add_iv", "update_iv", "copy_other_edit", "add_note", "remove_note", "group_comment", "group_comment_remove", "rename")
+OPS = ("add", "add_shared", "update", "remove", "reopen", "add_nan", "add_text", "update_text", "remove_hole_ws", "remove_hole_parent", "copy_group", "group_data", "idle_session",
+       "add_iv", "update_iv", "copy_other_edit", "add_note", "remove_note", "group_comment", "group_comment_remove", "rename", "list_registries")
 
 
 def _file_tiling(path):
@@ -185,14 +185,20 @@ def run_history(case):
             if hname not in model and op != "reopen":
                 continue  # the hole was removed earlier in this history
             hole = ([c for c in g.children if c.name == hname] or [None])[0]
-            if op in ("add", "add_nan"):
+            if op in ("add", "add_nan", "add_shared"):
                 if name in model[hname]:
                     continue
                 vals = np.arange(4, dtype=float) + 10 * step + h
                 if op == "add_nan":
                     vals[1] = np.nan
                     vals[3] = np.nan
-                hole.add_data({name: {"depth": depths, "values": vals.copy()}})
+                spec = {"depth": depths, "values": vals.copy()}
+                if op == "add_shared":
+                    # the channel uses the data type of the same channel on another hole (one type per assay, as importers do)
+                    for oh in [c for c in g.children if c.name in model and c.name != hname and name in model[c.name]]:
+                        spec["entity_type"] = oh.get_data(name)[0].entity_type
+                        break
+                hole.add_data({name: spec})
                 model[hname][name] = vals
             elif op == "add_text":
                 tname = name + "_txt"
@@ -339,6 +345,11 @@ def run_history(case):
                 if "budget" not in group_data:
                     ws.create_entity(Data, entity={"parent": g, "name": "budget", "association": "GROUP", "values": np.array([1.0, 2.0, 3.0]) + step}, entity_type={"primitive_type": "FLOAT"})
                     group_data["budget"] = np.array([1.0, 2.0, 3.0]) + step
+            elif op == "list_registries":
+                # the workspace's listings are read (entries of entities that are gone are swept on the way)
+                del hole
+                __import__("gc").collect()
+                _ = len(ws.groups), len(ws.objects), len(ws.data), len(ws.types)
             elif op == "group_comment":
                 # plain (not concatenated) data held by the drillhole group itself
                 if "comments" not in group_plain:
@@ -466,6 +477,11 @@ class ConcatHistories(Contract):
         for version in (2.0, 2.1):
             for ops in THREE:
                 yield {"holes": 3, "ops": ops, "version": version, "check_each_step": True}
+            # one data type shared by the same channel of several holes; in a later session one hole's channel is removed
+            # while the others' have not been read
+            for ops in ([("add", 0, "Au"), ("add_shared", 1, "Au"), ("reopen", 0, ""), ("remove", 0, "Au"), ("list_registries", 0, ""), ("reopen", 0, "")],
+                        [("add", 1, "Au"), ("add_shared", 0, "Au"), ("add_shared", 2, "Au"), ("reopen", 0, ""), ("remove", 1, "Au"), ("list_registries", 1, ""), ("reopen", 0, ""), ("remove_hole_ws", 0, ""), ("list_registries", 1, ""), ("reopen", 0, "")]):
+                yield {"holes": 3, "ops": ops, "version": version, "check_each_step": False}
         for k in range(60 if tier == "quick" else 600):
             n = rng.randint(2, 5)
             holes = 2 if k % 3 else 3
